@@ -83,4 +83,64 @@ theorem loopM_foldl {σ α β : Type} (F : α → β → MutRes σ β) (G : Opti
     | ok v => simp only [toOpt]; exact ih v
     | panic m s => simp only [toOpt]; exact (foldl_none G hG as).symm
 
+theorem toOpt_eq_some {σ α : Type} {r : MutRes σ α} {v : α} (h : toOpt r = some v) : ∃ _u : Unit, r = .ok v := by
+  cases r with
+  | ok w => simp only [toOpt, Option.some.injEq] at h; subst h; exact ⟨(), rfl⟩
+  | panic m s => cases h
+
+/-! ### `chunks` / `rchunks` of a slice of `64 * n` elements against the hand model's `chunks64` -/
+
+theorem chunksFuel_eq_chunks64 : ∀ (n fuel : Nat) (l : List (Option Color)), l.length = 64 * n → n ≤ fuel →
+    chunksFuel 64 fuel l = chunks64 l n
+  | 0, fuel, l, hl, _ => by
+    have : l = [] := List.eq_nil_of_length_eq_zero (by omega)
+    subst this
+    cases fuel <;> rfl
+  | n + 1, 0, l, _, hf => by omega
+  | n + 1, fuel + 1, l, hl, hf => by
+    have hne : l.isEmpty = false := by
+      cases l with
+      | nil => simp at hl
+      | cons a as => rfl
+    simp only [chunksFuel, hne, Bool.false_eq_true, ↓reduceIte, chunks64]
+    rw [chunksFuel_eq_chunks64 n fuel (l.drop 64) (by rw [List.length_drop]; omega) (by omega)]
+
+theorem chunks64_snoc : ∀ (n : Nat) (l : List (Option Color)),
+    chunks64 l (n + 1) = chunks64 (l.take (64 * n)) n ++ [(l.drop (64 * n)).take 64]
+  | 0, l => by simp [chunks64]
+  | n + 1, l => by
+    rw [chunks64, chunks64_snoc n (l.drop 64)]
+    rw [show chunks64 (List.take (64 * (n + 1)) l) (n + 1)
+        = List.take 64 (List.take (64 * (n + 1)) l) :: chunks64 (List.drop 64 (List.take (64 * (n + 1)) l)) n from rfl]
+    have h1 : List.take 64 (List.take (64 * (n + 1)) l) = List.take 64 l := by
+      rw [List.take_take, Nat.min_eq_left (by omega)]
+    have h2 : List.drop 64 (List.take (64 * (n + 1)) l) = List.take (64 * n) (List.drop 64 l) := by
+      have e : 64 * (n + 1) - 64 = 64 * n := by omega
+      rw [List.drop_take, e]
+    have h3 : List.drop (64 * n) (List.drop 64 l) = List.drop (64 * (n + 1)) l := by
+      have e : 64 * n + 64 = 64 * (n + 1) := by omega
+      have e' : 64 + 64 * n = 64 * (n + 1) := by omega
+      rw [List.drop_drop]
+      first | rw [e] | rw [e']
+    rw [h1, h2, h3]; rfl
+
+theorem rchunksFuel_eq_chunks64 : ∀ (n fuel : Nat) (l : List (Option Color)), l.length = 64 * n → n ≤ fuel →
+    rchunksFuel 64 fuel l = (chunks64 l n).reverse
+  | 0, fuel, l, hl, _ => by
+    have : l = [] := List.eq_nil_of_length_eq_zero (by omega)
+    subst this
+    cases fuel <;> rfl
+  | n + 1, 0, l, _, hf => by omega
+  | n + 1, fuel + 1, l, hl, hf => by
+    have hne : l.isEmpty = false := by
+      cases l with
+      | nil => simp at hl
+      | cons a as => rfl
+    have hlen : l.length - 64 = 64 * n := by omega
+    simp only [rchunksFuel, hne, Bool.false_eq_true, ↓reduceIte, hlen]
+    rw [rchunksFuel_eq_chunks64 n fuel (l.take (64 * n)) (by rw [List.length_take]; omega) (by omega), chunks64_snoc n l,
+      List.reverse_append, List.reverse_singleton, List.singleton_append]
+    congr 1
+    rw [List.take_of_length_le (by rw [List.length_drop]; omega)]
+
 end EG.MockSrcLemmas
